@@ -276,7 +276,6 @@ func (q *Queue) Replace(elem *queue.Elem) (replaced bool, err error) {
 }
 
 func (q *Queue) Read(pids []packets.PacketID) (elems []*queue.Elem, err error) {
-	now := time.Now()
 	q.cond.L.Lock()
 	defer q.cond.L.Unlock()
 	conn := q.pool.Get()
@@ -287,6 +286,8 @@ func (q *Queue) Read(pids []packets.PacketID) (elems []*queue.Elem, err error) {
 	for q.current >= q.len && !q.closed {
 		q.cond.Wait()
 	}
+	// the wait may have lasted long: expiry is judged (and the inflight expiry set) from now
+	now := time.Now()
 	if q.closed {
 		return nil, queue.ErrClosed
 	}
